@@ -146,7 +146,8 @@ Proof. unfold VALS. repeat (constructor; [cbn [In]; intuition discriminate|]). c
 Lemma is_val_In v : is_val v = true -> In v VALS.
 Proof.
   unfold is_val, VALS. intros H.
-  assert (C : v = 0 \/ v = 1 \/ v = 2 \/ v = 3 \/ v = 4 \/ v = 5 \/ v = 6 \/ v = 7) by lia.
+  assert (C : v = 0 \/ v = 1 \/ v = 2 \/ v = 3 \/ v = 4 \/ v = 5 \/ v = 6 \/ v = 7 \/
+              v = 8 \/ v = 9 \/ v = 10 \/ v = 11) by lia.
   cbn [In]. intuition.
 Qed.
 
